@@ -231,3 +231,27 @@ class Connection(object):
         except Exception as e:
             self.escaped.append("%s: %s" % (type(e).__name__, e))
         return self.conn.sent[n0:]
+
+
+def bound_rsa():
+    """A damaged CreateKeyPair may ask for an RSA key of a million bits, which the backend would happily start generating (for
+    hours).  Environment bound of this check: the key generator refuses sizes above 8192 bits, as an overloaded backend would."""
+    from kmip.services.server.crypto import engine as ce
+    ce_rsa = ce.rsa
+    if getattr(ce_rsa, "_verif_bound", False):
+        return
+    inner = ce_rsa.generate_private_key
+
+    def generate_private_key(public_exponent, key_size, backend=None):
+        if key_size > 8192:
+            raise ValueError("key size %d beyond what this environment generates" % key_size)
+        return inner(public_exponent=public_exponent, key_size=key_size, backend=backend)
+
+    class _RSA(object):
+        _verif_bound = True
+
+        def __getattr__(self, name):
+            return getattr(ce_rsa, name)
+    proxy = _RSA()
+    proxy.generate_private_key = generate_private_key
+    ce.rsa = proxy
